@@ -8,6 +8,7 @@ Acc(x) == [c |-> "acc", x |-> x]
 OkP == [c |-> "ok"]
 And(a, b) == [c |-> "and", a |-> a, b |-> b]
 OneOf(ps) == [c |-> "oneof", ps |-> ps]
+SeqP(ps) == [c |-> "seq", ps |-> ps]
 Cond(g, s) == [g |-> g, s |-> s]
 Choose(cs) == [c |-> "choose", cs |-> cs]
 AnyP(g, s) == [c |-> "any", g |-> g, s |-> s]
@@ -40,6 +41,11 @@ Run(p, T, st) ==
          LET a == Run(p.a, T, st) IN
          IF ~a.ok THEN a
          ELSE LET b == Run(p.b, T, a.st) IN R(b.ok, a.nodes \o b.nodes, b.st)
+    [] p.c = "seq" ->          \* Seq is And folded over its arguments
+         LET RECURSIVE Go(_, _, _)
+             Go(k, acc, s) == IF k > Len(p.ps) THEN R(TRUE, acc, s)
+                              ELSE LET r == Run(p.ps[k], T, s) IN IF r.ok THEN Go(k + 1, acc \o r.nodes, r.st) ELSE R(FALSE, acc \o r.nodes, r.st)
+         IN Go(1, <<>>, st)
     [] p.c = "oneof" ->
          LET RECURSIVE Try(_, _)
              Try(i, s) == LET r == Run(p.ps[i], T, Snap(s)) IN
@@ -83,11 +89,64 @@ Run(p, T, st) ==
     [] p.c = "drop" -> LET r == Run(p.p, T, st) IN R(r.ok, <<>>, r.st)
     [] p.c = "fmap" -> LET r == Run(p.p, T, st) IN IF r.ok THEN R(TRUE, ApplyF(p.f, r.nodes), r.st) ELSE R(FALSE, <<>>, r.st)
 
+(* Declarative ordered-choice (PEG) recogniser over the token list: [ok, nodes, j] where j is  *)
+(* the number of tokens consumed on success.  No snapshot stack, no partial consumption:       *)
+(* a failing alternative simply does not count.  Not is only meaningful as a look-ahead        *)
+(* (under Assert), which is how the grammar uses it.                                            *)
+P(ok, nodes, j) == [ok |-> ok, nodes |-> nodes, j |-> j]
+RECURSIVE Peg(_, _, _)
+Peg(p, T, i) ==
+  CASE p.c = "ok" -> P(TRUE, <<>>, i)
+    [] p.c = "acc" -> IF i < Len(T) /\ T[i + 1] = p.x THEN P(TRUE, <<T[i + 1]>>, i + 1) ELSE P(FALSE, <<>>, i)
+    [] p.c = "and" -> LET a == Peg(p.a, T, i) IN
+                      IF ~a.ok THEN P(FALSE, <<>>, i)
+                      ELSE LET b == Peg(p.b, T, a.j) IN IF b.ok THEN P(TRUE, a.nodes \o b.nodes, b.j) ELSE P(FALSE, <<>>, i)
+    [] p.c = "seq" -> LET RECURSIVE Go(_, _, _)
+                          Go(k, acc, j) == IF k > Len(p.ps) THEN P(TRUE, acc, j)
+                                           ELSE LET r == Peg(p.ps[k], T, j) IN IF r.ok THEN Go(k + 1, acc \o r.nodes, r.j) ELSE P(FALSE, <<>>, i)
+                      IN Go(1, <<>>, i)
+    [] p.c = "oneof" -> LET RECURSIVE Try(_)
+                            Try(k) == IF k > Len(p.ps) THEN P(FALSE, <<>>, i)
+                                      ELSE LET r == Peg(p.ps[k], T, i) IN IF r.ok THEN r ELSE Try(k + 1)
+                        IN Try(1)
+    [] p.c = "choose" -> LET RECURSIVE Try(_)
+                             Try(k) == IF k > Len(p.cs) THEN [ok |-> FALSE, nodes |-> <<>>, j |-> i, panic |-> TRUE]
+                                       ELSE LET g == Peg(p.cs[k].g, T, i) IN
+                                            IF ~g.ok THEN Try(k + 1)
+                                            ELSE LET r == Peg(p.cs[k].s, T, g.j) IN      \* committed: no later alternative is tried
+                                                 IF r.ok THEN P(TRUE, g.nodes \o r.nodes, r.j) ELSE P(FALSE, <<>>, i)
+                         IN Try(1)
+    [] p.c = "any" -> LET RECURSIVE Loop(_, _)
+                          Loop(acc, j) == LET g == Peg(p.g, T, j) IN
+                                          IF ~g.ok THEN P(TRUE, acc, j)
+                                          ELSE LET r == Peg(p.s, T, g.j) IN
+                                               IF ~r.ok THEN P(FALSE, <<>>, i)           \* committed after the gate
+                                               ELSE Loop(acc \o g.nodes \o r.nodes, r.j)
+                      IN Loop(<<>>, i)
+    [] p.c = "sepby" -> LET a0 == Peg(p.a, T, i) IN
+                        IF ~a0.ok THEN P(TRUE, <<>>, i)
+                        ELSE LET RECURSIVE Loop(_, _)
+                                 Loop(acc, j) == LET b == Peg(p.b, T, j) IN
+                                                 IF ~b.ok THEN P(TRUE, acc, j)
+                                                 ELSE LET a == Peg(p.a, T, b.j) IN
+                                                      IF ~a.ok THEN P(TRUE, acc, j) ELSE Loop(acc \o a.nodes, a.j)
+                             IN Loop(a0.nodes, a0.j)
+    [] p.c = "surr" -> LET a == Peg(p.a, T, i) IN
+                       IF ~a.ok THEN P(FALSE, <<>>, i)
+                       ELSE LET b == Peg(p.b, T, a.j) IN
+                            IF ~b.ok THEN P(FALSE, <<>>, i)
+                            ELSE LET cc == Peg(p.cc, T, b.j) IN IF cc.ok THEN P(TRUE, b.nodes, cc.j) ELSE P(FALSE, <<>>, i)
+    [] p.c = "assert" -> LET r == Peg(p.p, T, i) IN P(r.ok, <<>>, i)
+    [] p.c = "not" -> LET r == Peg(p.p, T, i) IN P(~r.ok, <<>>, i)
+    [] p.c = "drop" -> LET r == Peg(p.p, T, i) IN P(r.ok, <<>>, IF r.ok THEN r.j ELSE i)
+    [] p.c = "fmap" -> LET r == Peg(p.p, T, i) IN IF r.ok THEN P(TRUE, ApplyF(p.f, r.nodes), r.j) ELSE P(FALSE, <<>>, i)
+
 RECURSIVE Nullable(_)
 Nullable(p) ==
   CASE p.c = "ok" -> TRUE [] p.c = "acc" -> FALSE
     [] p.c = "and" -> Nullable(p.a) /\ Nullable(p.b)
     [] p.c = "oneof" -> \E i \in 1..Len(p.ps) : Nullable(p.ps[i])
+    [] p.c = "seq" -> \A i \in 1..Len(p.ps) : Nullable(p.ps[i])
     [] p.c = "choose" -> \E i \in 1..Len(p.cs) : Nullable(p.cs[i].g) /\ Nullable(p.cs[i].s)
     [] p.c \in {"any", "sepby", "assert", "not"} -> TRUE
     [] p.c = "surr" -> Nullable(p.a) /\ Nullable(p.b) /\ Nullable(p.cc)
